@@ -13,9 +13,9 @@ from common import cq, cqmat, cqvec
 NAMES = ["UPGrad", "DualProj"]
 
 
-def exact_weights(name, p, J):
+def exact_weights(name, p, J, s=None):
     m = len(J)
-    s = A.sigma_max(J)
+    s = A.sigma_max(J) if s is None else s
     ne, re_ = F(p["norm_eps"]), F(p["reg_eps"])
     u = p.get("pref") or [F(1, m)] * m
     M = A.reg_norm_gramian(A.gram(J), s, ne, re_)
@@ -28,16 +28,17 @@ def exact_weights(name, p, J):
     return w, s, u
 
 
-def oracle(chk, c, dt, found):
-    """the property as stated, on the implementation, with an exact rational reference"""
+def oracle(chk, c, dt, found, s_exact=None):
+    """the property as stated, on the implementation, with an exact rational reference.  s_exact: the largest
+    singular value when it is known exactly (then the case s == norm_eps is decided, not skipped)"""
     name, p, J = c["name"], c["params"], c["J"]
     m, n = len(J), len(J[0])
     pref = p.get("pref")
     if pref is not None and len(pref) != m:
         return
-    w, s, u = exact_weights(name, p, J)
+    w, s, u = exact_weights(name, p, J, s_exact)
     ne = F(p["norm_eps"])
-    if s != 0 and abs(s - ne) <= F(1, 10**4) * max(s, ne):
+    if s_exact is None and s != 0 and abs(s - ne) <= F(1, 10**4) * max(s, ne):
         chk.note("skipped_s_near_norm_eps")
         return
     expect = A.vecmat(w, J, n)
@@ -140,6 +141,8 @@ def run(chk):
             n_ext += 1
             R.extreme_scales(chk, found, c, {"f64": 1e-6, "f32": 5e-3}, "C03", dts=R.dtypes_for(c))
     chk.notes["extreme_scale_cases"] = n_ext
+    # s >= norm_eps INCLUDES equality: conflicting matrices whose sigma_max is exactly norm_eps get the projection
+    R.exact_boundary(chk, found, ("UPGrad", "DualProj"), "C03", lambda c, dt, s: oracle(chk, c, dt, found, s_exact=s))
     R.report_corr(chk, dis, found)
     chk.cov["rule"] = ("random integer*2^k matrices (categories in notes), UPGrad/DualProj with "
                        "random pref vectors and norm_eps != reg_eps, 30% rescaled so sigma_max "
